@@ -15,6 +15,7 @@ import (
 	"io"
 	"net"
 	"net/netip"
+	"os"
 	"runtime"
 	"sort"
 	"strconv"
@@ -60,11 +61,11 @@ func c09MakeRR(r c09RR) dnsmessage.RR {
 	case dnsmessage.TypeAAAA:
 		ip := make(net.IP, 16)
 		ip[0], ip[1], ip[14], ip[15] = 0x20, 0x01, hi, lo
-		return &dnsmessage.AAAA{Hdr: dnsmessage.RR_Header{Name: r.Name, Rrtype: r.Type, Class: dnsmessage.ClassINET, Ttl: 60}, AAAA: ip}
+		return &dnsmessage.AAAA{Hdr: dnsmessage.RR_Header{Name: r.Name, Rrtype: r.Type, Class: dnsmessage.ClassINET, Ttl: 3600}, AAAA: ip}
 	case dnsmessage.TypeTXT:
-		return &dnsmessage.TXT{Hdr: dnsmessage.RR_Header{Name: r.Name, Rrtype: r.Type, Class: dnsmessage.ClassINET, Ttl: 60}, Txt: []string{"s" + strconv.Itoa(r.Serial)}}
+		return &dnsmessage.TXT{Hdr: dnsmessage.RR_Header{Name: r.Name, Rrtype: r.Type, Class: dnsmessage.ClassINET, Ttl: 3600}, Txt: []string{"s" + strconv.Itoa(r.Serial)}}
 	default:
-		return &dnsmessage.A{Hdr: dnsmessage.RR_Header{Name: r.Name, Rrtype: dnsmessage.TypeA, Class: dnsmessage.ClassINET, Ttl: 60}, A: net.IP{10, 9, hi, lo}}
+		return &dnsmessage.A{Hdr: dnsmessage.RR_Header{Name: r.Name, Rrtype: dnsmessage.TypeA, Class: dnsmessage.ClassINET, Ttl: 3600}, A: net.IP{10, 9, hi, lo}}
 	}
 }
 
@@ -198,6 +199,25 @@ func (s *c09Sched) step(th *c09Thread) {
 		th.finished = true
 		th.at = "done"
 	}
+}
+
+// c09D scales every real-time deadline of the harness by $VERIF_WAIT_SCALE (the driver re-runs a case that
+// reported stuck with scale 4 and 16 before it believes it).  No verdict depends on a deadline elapsing:
+// all waits are for events; a deadline that does elapse marks the result as stuck.
+func c09D(d time.Duration) time.Duration {
+	if v, err := strconv.Atoi(os.Getenv("VERIF_WAIT_SCALE")); err == nil && v > 1 {
+		return d * time.Duration(v)
+	}
+	return d
+}
+
+func c09Dump() string {
+	buf := make([]byte, 1<<20)
+	n := runtime.Stack(buf, true)
+	if n > 20000 {
+		n = 20000
+	}
+	return string(buf[:n])
 }
 
 // verifYieldTrue is referenced by the instrumented copy of endUse (see tools/c09.py).
@@ -347,6 +367,9 @@ type c09PipeResult struct {
 	Effective []c09PipeEvent  `json:"effective"`
 	Clients   []c09PipeClient `json:"clients"`
 	Closed    bool            `json:"closed"`
+	Stuck     bool            `json:"stuck,omitempty"`
+	Dump      string          `json:"dump,omitempty"`
+	ElapsedMs int64           `json:"elapsed_ms"`
 	Panic     string          `json:"panic,omitempty"`
 }
 
@@ -357,6 +380,8 @@ type c09rt struct {
 
 func c09RunPipe(events []c09PipeEvent) (res c09PipeResult) {
 	res.Kind = "pipe"
+	t0 := time.Now()
+	defer func() { res.ElapsedMs = time.Since(t0).Milliseconds() }()
 	defer func() {
 		if r := recover(); r != nil {
 			res.Panic = fmt.Sprint(r)
@@ -424,7 +449,11 @@ func c09RunPipe(events []c09PipeEvent) (res c09PipeResult) {
 			}
 			res.Effective = append(res.Effective, c09PipeEvent{Op: "finish", C: c})
 			return true
-		case <-time.After(wait):
+		case <-time.After(c09D(wait)):
+			res.Stuck = true
+			if res.Dump == "" {
+				res.Dump = c09Dump()
+			}
 			return false
 		}
 	}
@@ -436,7 +465,7 @@ func c09RunPipe(events []c09PipeEvent) (res c09PipeResult) {
 		buf := make([]byte, 2+len(b))
 		binary.BigEndian.PutUint16(buf, uint16(len(b)))
 		copy(buf[2:], b)
-		_ = srv.SetWriteDeadline(time.Now().Add(2 * time.Second))
+		_ = srv.SetWriteDeadline(time.Now().Add(c09D(30 * time.Second)))
 		_, _ = srv.Write(buf)
 	}
 	doTimeout := func(c int) {
@@ -446,9 +475,9 @@ func c09RunPipe(events []c09PipeEvent) (res c09PipeResult) {
 		}
 		res.Effective = append(res.Effective, c09PipeEvent{Op: "timeout", C: c})
 		cl.cancel()
-		collect(c, 2*time.Second)
+		collect(c, 30*time.Second)
 		for _, o := range order {
-			collect(o, 2*time.Second)
+			collect(o, 30*time.Second)
 		}
 	}
 	for _, e := range events {
@@ -473,12 +502,13 @@ func c09RunPipe(events []c09PipeEvent) (res c09PipeResult) {
 					cl.wire, cl.rec.WireID = f.id, f.id
 					owner[f.id] = e.C
 				} else {
-					collect(e.C, 2*time.Second)
+					collect(e.C, 30*time.Second)
 				}
 			case r := <-cl.out:
 				cl.out <- r
-				collect(e.C, time.Second)
-			case <-time.After(2 * time.Second):
+				collect(e.C, 30*time.Second)
+			case <-time.After(c09D(30 * time.Second)):
+				res.Stuck = true
 			}
 		case "resp":
 			m := *e.M
@@ -501,7 +531,7 @@ func c09RunPipe(events []c09PipeEvent) (res c09PipeResult) {
 			writeFrame(c09Build(m))
 			writeFrame(c09Build(c09Msg{ID: 0xffff, QName: "barrier.", QType: 1})) // id >= 4096: ignored by readLoop
 			if expect >= 0 {
-				collect(expect, 2*time.Second)
+				collect(expect, 30*time.Second)
 			}
 		case "timeout":
 			doTimeout(e.C)
@@ -664,7 +694,7 @@ func c09RunUdp(events []c09UdpEvent) (res c09UdpResult) {
 		case "q":
 			cur = e.Script
 			data, _ := c09Query(e.ID, e.Name, e.QType).Pack()
-			ctx, cancel := context.WithTimeout(context.Background(), 2*time.Second)
+			ctx, cancel := context.WithTimeout(context.Background(), c09D(60*time.Second))
 			msg, err := d.ForwardDNS(ctx, data)
 			cancel()
 			var q c09UdpQ
@@ -729,6 +759,9 @@ type c09CtlResult struct {
 	TcpCalls [][]string      `json:"tcp_calls"`
 	Cache    []c09CacheEntry `json:"cache"`
 	Settled  []bool          `json:"settled"`
+	Stuck       bool         `json:"stuck,omitempty"`
+	Dump        string       `json:"dump,omitempty"`
+	ElapsedMs   int64        `json:"elapsed_ms"`
 	SharedMsg   bool         `json:"shared_msg"` // two waiters of a round were handed the same *Msg
 	FreshPacked bool         `json:"fresh_packed"` // an entry had deadlineNano set right after its insertion
 	Closes   map[string]int  `json:"closes"`
@@ -866,6 +899,8 @@ func c09Parked(live int, markers ...string) bool {
 
 func c09RunCtl(cs c09CtlCase) (res c09CtlResult) {
 	res.Kind = "ctl"
+	t0 := time.Now()
+	defer func() { res.ElapsedMs = time.Since(t0).Milliseconds() }()
 	defer func() {
 		if r := recover(); r != nil {
 			res.Panic = fmt.Sprint(r)
@@ -954,23 +989,34 @@ func c09RunCtl(cs c09CtlCase) (res c09CtlResult) {
 				errs[i] = c09ClientMain(ctrl, c09Query(c.ID, c.Name, c.QType), req, writers[i])
 			}(i, c)
 		}
-		settled := false
-		for t := 0; t < 4000; t++ {
-			if c09Parked(n-int(finished.Load()), "c09Gate", "sync.(*WaitGroup).Wait", "c09WriteGate") {
-				settled = true
-				break
+		// event-driven settling: poll the goroutine dump until every live client is parked; the deadline is
+		// long and only marks the case as stuck (the driver retries such a case with longer deadlines)
+		waitParked := func(markers ...string) bool {
+			deadline := time.Now().Add(c09D(60 * time.Second))
+			pause := 200 * time.Microsecond
+			for time.Now().Before(deadline) {
+				if c09Parked(n-int(finished.Load()), markers...) {
+					return true
+				}
+				time.Sleep(pause)
+				if pause < 20*time.Millisecond {
+					pause *= 2
+				}
 			}
-			time.Sleep(250 * time.Microsecond)
+			return false
+		}
+		settled := waitParked("c09Gate", "sync.(*WaitGroup).Wait", "c09WriteGate")
+		if !settled && res.Dump == "" {
+			res.Dump = c09Dump()
 		}
 		close(g)
 		// second barrier: every client that is going to write is inside WriteMsg before anybody packs
-		settled2 := false
-		for t := 0; t < 8000; t++ {
-			if c09Parked(n-int(finished.Load()), "c09WriteGate") {
-				settled2 = true
-				break
-			}
-			time.Sleep(250 * time.Microsecond)
+		settled2 := waitParked("c09WriteGate")
+		if !settled2 && res.Dump == "" {
+			res.Dump = c09Dump()
+		}
+		if !(settled && settled2) {
+			res.Stuck = true
 		}
 		res.Settled = append(res.Settled, settled && settled2)
 		close(wgate)
